@@ -130,7 +130,7 @@ def signature(func, variadic=True, markup=True, safe=False):
 
     # for a partial, the first p_args are now at fixed values
     # (for a bound method, 'self' is already taken and is not one of them)
-    _self = 1 if inspect.ismethod(func) and func.__self__ else 0
+    _self = 1 if inspect.ismethod(func) and func.__self__ is not None else 0
     _fixed = dict(zip(arg_names[_self:_self+len(p_args)],p_args))
 
     # deal with the stupid case that the partial always fails
@@ -154,7 +154,7 @@ def signature(func, variadic=True, markup=True, safe=False):
         defaults = dict((k,v) for (k,v) in defaults.items() if k not in _fixed)
         defaults.update(dict((X+k,v) for (k,v) in _fixed.items()))
 
-    if inspect.ismethod(func) and func.__self__:
+    if inspect.ismethod(func) and func.__self__ is not None:
         # then it's a bound method
         explicit = explicit[1:] #XXX: correct to remove 'self' ?
 
